@@ -220,16 +220,26 @@ func (o *Obligation) AbstractQuery(prelude string) (string, bool) {
 		}
 	}
 	walk(o.Goal)
-	if len(keys) == 0 || len(keys) > 6 {
+	if len(keys) == 0 || len(keys) > 12 {
 		return "", false
 	}
+	// dep[sym]: the defined symbol depends, directly or through other definitions, on one of the goal's heap arrays
+	dep := map[string]bool{}
 	mentions := func(text string) bool {
 		for _, sym := range symbolsOf(text) {
-			if keys[baseOf(sym)] {
+			if keys[baseOf(sym)] || dep[sym] {
 				return true
 			}
 		}
 		return false
+	}
+	for _, l := range lines { // definitions precede their uses
+		if strings.HasPrefix(l, "(define-fun ") {
+			f := strings.SplitN(l, " ", 3)
+			if len(f) == 3 && mentions(f[2]) {
+				dep[f[1]] = true
+			}
+		}
 	}
 	var b strings.Builder
 	b.WriteString(prelude)
